@@ -73,7 +73,7 @@ theorem C10_pipeline_never_stuck (s : St) (h : (s.thr .C).pos < lastVal s.hP) :
 
 /-- Bounded number of own steps per call (tie to the source): an availability computation loads one index, `check` makes at
     most one such computation — and makes it whenever what it remembers is not enough, so a retrying stage always takes a fresh look —, an advance stores one index, and the only function with a loop that does not end by itself is `wait_for` (the documented
-    busy-wait); `poll` makes two attempts at most, written as a loop or unrolled (`Gen.pollShape`); `for` loops over a closed range or over slices — the two per-slot `*_init`
+    busy-wait); `poll` performs at most four events (two attempts at most), whichever way it is written (`Gen.pollTraces`); `for` loops over a closed range or over slices — the two per-slot `*_init`
     copies — end by themselves and are listed apart (`Gen.boundedLoops`). -/
 theorem C10_source_straight_line :
     Gen.skelProdAvailable = [⟨.succIndex, .none⟩] ∧ Gen.skelWorkAvailable = [⟨.succIndex, .none⟩] ∧ Gen.skelConsAvailable = [⟨.succIndex, .none⟩] ∧
@@ -81,7 +81,7 @@ theorem C10_source_straight_line :
     (∀ i c s L n a, Gen.check.ret i c s L n a = decide (c ≥ n ∨ a ≥ n)) ∧ Gen.skelAdvance = [⟨.advanceLocal, .count⟩, ⟨.setAtomicIndex, .index⟩] ∧
     Gen.skelConsReset.map (·.name) = [.succIndex, .setAtomicIndex] ∧ Gen.skelWorkReset.map (·.name) = [.succIndex, .setAtomicIndex] ∧
     Gen.skelDropProd.map (·.name) = [.setProdAlive, .releaseIter, .drop] ∧
-    Gen.loops = [("wait_for", "while")] ∧ Gen.pollShape.attemptsAtMost = 2 :=
+    Gen.loops = [("wait_for", "while")] ∧ Gen.pollTraces.all (fun t => decide (t.length ≤ 4) && !t.contains .unknown) = true :=
   ⟨rfl, rfl, rfl, rfl, fun i c s L n a => Gen.check_cached_eq i c s L n a, fun i c s L n a => Gen.check_ret_eq i c s L n a, rfl, rfl, rfl, rfl, rfl, rfl⟩
 
 end MRB.Props.C10
